@@ -18,11 +18,11 @@ CHECKS = {
         "quick": {"runs": 20000, "wall_s": 80, "runs_per_spec": 12, "run_wall_cap": 20, "proto": {}, "faults": True, "walk_rate": 0.5, "walk_len": 12},
         "thorough": {"runs": 400000, "wall_s": 1500, "runs_per_spec": 20, "run_wall_cap": 30, "proto": {"max_types": 7, "max_states": 4}, "faults": True, "walk_rate": 0.5, "walk_len": 16},
     },
-    "C01": {"sim": "searchsim", "quick": {"runs": 20000, "wall_s": 70, "runs_per_spec": 25, "run_wall_cap": 25, "spec": {}}, "thorough": {"runs": 400000, "wall_s": 1500, "runs_per_spec": 30, "run_wall_cap": 40, "spec": {"max_h": 7, "max_r": 5, "body_rules": 4}}},
-    "C02": {"sim": "searchsim", "quick": {"runs": 20000, "wall_s": 70, "runs_per_spec": 25, "run_wall_cap": 25, "spec": {"raising_rate": 0.5}}, "thorough": {"runs": 400000, "wall_s": 1500, "runs_per_spec": 30, "run_wall_cap": 40, "spec": {"max_h": 7, "max_r": 5, "body_rules": 4, "raising_rate": 0.5}}},
-    "C03": {"sim": "searchsim", "quick": {"runs": 20000, "wall_s": 70, "runs_per_spec": 25, "run_wall_cap": 25, "spec": {"inexact_pair_rate": 0.5, "raising_rate": 0.0}}, "thorough": {"runs": 400000, "wall_s": 1500, "runs_per_spec": 30, "run_wall_cap": 40, "spec": {"max_h": 7, "max_r": 5, "inexact_pair_rate": 0.5, "raising_rate": 0.0}}},
-    "C11": {"sim": "searchsim", "quick": {"runs": 20000, "wall_s": 70, "runs_per_spec": 25, "run_wall_cap": 25, "spec": {}}, "thorough": {"runs": 400000, "wall_s": 1500, "runs_per_spec": 30, "run_wall_cap": 40, "spec": {"max_h": 7, "max_r": 5, "body_rules": 4}}},
-    "C16": {"sim": "searchsim", "quick": {"runs": 20000, "wall_s": 70, "runs_per_spec": 25, "run_wall_cap": 25, "spec": {"generators": True, "gen_record_rate": 0.7}, "gen_fault_rate": 0.08}, "thorough": {"runs": 400000, "wall_s": 1500, "runs_per_spec": 30, "run_wall_cap": 40, "spec": {"max_h": 5, "max_r": 3, "gen_record_rate": 0.7}, "gen_fault_rate": 0.08}},
+    "C01": {"sim": "searchsim", "quick": {"runs": 20000, "wall_s": 70, "runs_per_spec": 12, "run_wall_cap": 25, "spec": {"pair_rate": 0.6, "prefer_kinds": ["eq", "nested-eq", "eq-bounded"]}}, "thorough": {"runs": 400000, "wall_s": 1500, "runs_per_spec": 20, "run_wall_cap": 40, "spec": {"max_h": 7, "max_r": 5, "body_rules": 4, "pair_rate": 0.6, "prefer_kinds": ["eq", "nested-eq", "eq-bounded"]}}},
+    "C02": {"sim": "searchsim", "quick": {"runs": 20000, "wall_s": 70, "runs_per_spec": 12, "run_wall_cap": 25, "spec": {"raising_rate": 0.6, "prefer_kinds": ["raising", "index"]}}, "thorough": {"runs": 400000, "wall_s": 1500, "runs_per_spec": 30, "run_wall_cap": 40, "spec": {"max_h": 7, "max_r": 5, "body_rules": 4, "raising_rate": 0.6, "prefer_kinds": ["raising", "index"]}}},
+    "C03": {"sim": "searchsim", "quick": {"runs": 20000, "wall_s": 70, "runs_per_spec": 12, "run_wall_cap": 25, "spec": {"inexact_pair_rate": 0.5, "raising_rate": 0.0, "many_matches_rate": 0.5}}, "thorough": {"runs": 400000, "wall_s": 1500, "runs_per_spec": 30, "run_wall_cap": 40, "spec": {"max_h": 7, "max_r": 5, "inexact_pair_rate": 0.5, "raising_rate": 0.0, "many_matches_rate": 0.5}}},
+    "C11": {"sim": "searchsim", "quick": {"runs": 20000, "wall_s": 70, "runs_per_spec": 12, "run_wall_cap": 25, "spec": {"raising_rate": 0.4, "prefer_kinds": ["forall", "exists", "python-global", "comprehension", "raising"]}}, "thorough": {"runs": 400000, "wall_s": 1500, "runs_per_spec": 20, "run_wall_cap": 40, "spec": {"max_h": 7, "max_r": 5, "body_rules": 4, "raising_rate": 0.4, "prefer_kinds": ["forall", "exists", "python-global", "comprehension", "raising"]}}},
+    "C16": {"sim": "searchsim", "quick": {"runs": 20000, "wall_s": 70, "runs_per_spec": 12, "run_wall_cap": 25, "spec": {"generators": True, "gen_record_rate": 0.7}, "gen_fault_rate": 0.08}, "thorough": {"runs": 400000, "wall_s": 1500, "runs_per_spec": 30, "run_wall_cap": 40, "spec": {"max_h": 5, "max_r": 3, "gen_record_rate": 0.7}, "gen_fault_rate": 0.08}},
     "C09": {"sim": "treesim", "quick": {"runs": 60000, "wall_s": 45, "runs_per_spec": 1, "run_wall_cap": 10}, "thorough": {"runs": 600000, "wall_s": 1200, "runs_per_spec": 1, "run_wall_cap": 10}},
     "C10": {"further": [{"sim": "searchsim", "quick": {"runs": 20000, "wall_s": 45, "runs_per_spec": 25, "run_wall_cap": 25, "spec": {}}, "thorough": {"runs": 400000, "wall_s": 1200, "runs_per_spec": 30, "run_wall_cap": 40, "spec": {"max_h": 7, "max_r": 5}}}], "sim": "treesim", "quick": {"runs": 60000, "wall_s": 45, "runs_per_spec": 1, "run_wall_cap": 10}, "thorough": {"runs": 600000, "wall_s": 1200, "runs_per_spec": 1, "run_wall_cap": 10}},
     "C17": {"sim": "reprosim", "quick": {"runs": 4000, "wall_s": 70, "runs_per_spec": 12, "run_wall_cap": 60, "spec": {"max_h": 3, "max_r": 2, "body_rules": 2}}, "thorough": {"runs": 200000, "wall_s": 1500, "runs_per_spec": 16, "run_wall_cap": 90, "spec": {}}},
